@@ -632,3 +632,62 @@ Proof.
   clear - Hx. induction (matched tr all vs) as [|a r IH]; [destruct Hx|].
   cbn [maxdots fold_right]. fold (maxdots r). destruct Hx as [Hx|Hx]; [subst; lia|]. specialize (IH Hx). lia.
 Qed.
+
+(* HardwareView(model).vendor does not depend on the registration order when the matches
+   with the maximal number of dots belong to one vendor *)
+Definition tie_free (M : Type) (hit : rid -> M -> bool) (d : db) (vs : vendors) (m : M) : bool :=
+  match build_tree d with
+  | Some t => no_tie (matched (tree_true M hit m t) (all_sequences d) vs)
+  | None => true
+  end.
+
+Theorem vendor_of_perm M (hit : rid -> M -> bool) d vs vs' m :
+  Permutation vs vs' -> tie_free M hit d vs m = true ->
+  vendor_of M hit d vs m = vendor_of M hit d vs' m.
+Proof.
+  unfold vendor_of, tie_free. destruct (build_tree d); [|reflexivity].
+  intros HP HT. apply registry_match_perm; assumption.
+Qed.
+
+(* ---------------------------------------------------------------------------------- *)
+(* frozen example tables (literal copies of a fragment of devdb.json and of the vendor
+   match lists as shipped at review time) for non-vacuity and for the tie witness *)
+
+Definition ex_db : db :=
+  [ (["Cisco"], 0); (["Cisco"; "ASR"], 1); (["Cisco"; "Nexus"], 2); (["Cisco"; "Nexus"; "N9x"], 3);
+    (["Huawei"], 4); (["Huawei"; "CE"], 5); (["Huawei"; "OptiXtrans"], 6);
+    (["Huawei"; "OptiXtrans"; "DC"], 7); (["Huawei"; "OptiXtrans"; "DC"; "DC908"], 8) ].
+
+Definition ex_vendors : vendors :=
+  [ ("cisco", [(["Cisco"], 0)]); ("huawei", [(["Huawei"], 0)]);
+    ("iosxr", [(["Cisco"; "ASR"], 1)]); ("nexus", [(["Cisco"; "Nexus"], 1)]);
+    ("optixtrans", [(["OptiXtrans"], 0)]) ].
+
+(* the same registry with optixtrans registered first *)
+Definition ex_vendors' : vendors :=
+  [ ("optixtrans", [(["OptiXtrans"], 0)]);
+    ("cisco", [(["Cisco"], 0)]); ("huawei", [(["Huawei"], 0)]);
+    ("iosxr", [(["Cisco"; "ASR"], 1)]); ("nexus", [(["Cisco"; "Nexus"], 1)]) ].
+
+Lemma ex_vendors_perm : Permutation ex_vendors ex_vendors'.
+Proof.
+  unfold ex_vendors, ex_vendors'.
+  apply Permutation_sym.
+  apply (Permutation_middle
+           [("cisco", [(["Cisco"], 0)]); ("huawei", [(["Huawei"], 0)]);
+            ("iosxr", [(["Cisco"; "ASR"], 1)]); ("nexus", [(["Cisco"; "Nexus"], 1)])] []).
+Qed.
+
+(* "Huawei OptiXtrans DC908": regexes 4,6,7,8 of ex_db are found in it *)
+Theorem tie_refuted :
+  db_ok ex_db = true /\
+  exists (m : list nat) (vs' : vendors),
+    Permutation ex_vendors vs' /\
+    tie_free _ hit_tbl ex_db ex_vendors m = false /\
+    vendor_of _ hit_tbl ex_db ex_vendors m = VName "huawei" /\
+    vendor_of _ hit_tbl ex_db vs' m = VName "optixtrans".
+Proof.
+  split; [vm_compute; reflexivity|].
+  exists [4; 6; 7; 8], ex_vendors'. split; [exact ex_vendors_perm|].
+  repeat split; vm_compute; reflexivity.
+Qed.
